@@ -1146,6 +1146,19 @@ func (p *Parser) parseCastExpression() (*ast.CastExpression, error) {
 //	INTERVAL '2 hours'
 //	INTERVAL '1 year 2 months 3 days'
 //	INTERVAL '30 days'
+// isUnitWord reports whether lit can be the unit of INTERVAL <number> <unit>.
+func isUnitWord(lit string) bool {
+	if lit == "" {
+		return false
+	}
+	for _, r := range lit {
+		if r != '_' && (r < 'a' || r > 'z') && (r < 'A' || r > 'Z') {
+			return false
+		}
+	}
+	return true
+}
+
 func (p *Parser) parseIntervalExpression() (*ast.IntervalExpression, error) {
 	// Consume INTERVAL keyword
 	p.advance()
@@ -1162,9 +1175,14 @@ func (p *Parser) parseIntervalExpression() (*ast.IntervalExpression, error) {
 	if p.isNumericLiteral() {
 		numStr := p.currentToken.Literal
 		p.advance()
-		// Expect a unit keyword (DAY, HOUR, MINUTE, SECOND, MONTH, YEAR, WEEK, etc.)
-		unit := strings.ToUpper(p.currentToken.Literal)
-		p.advance()
+		// Expect a unit keyword (DAY, HOUR, MINUTE, SECOND, MONTH, YEAR, WEEK, etc.).
+		// Only a word can be the unit: a semicolon, a parenthesis or the next
+		// statement's first token is left where it is.
+		unit := ""
+		if isUnitWord(p.currentToken.Literal) {
+			unit = strings.ToUpper(p.currentToken.Literal)
+			p.advance()
+		}
 		return &ast.IntervalExpression{Value: numStr + " " + unit}, nil
 	}
 
